@@ -427,4 +427,6 @@ def run(ctx):
                        'Not decided: floating-point round-trip identity, random working-unit seeds.')
     from .. import lints
     ctx.run_rules([working_units, style_tables, inverse_pair, precedence, model_keys, derived_state,
-                   lambda c: lints.fresh_results(c, 'DERIVED-STATE', UC, floor=9, what='a value computed from the working units in force (a memoised parse() would outlive reset_units)')])
+                   lambda c: lints.fresh_results(c, 'DERIVED-STATE', UC, floor=9, what='a value computed from the working units in force (a memoised parse() would outlive reset_units)'),
+                   # "all scalar/array values": plain numbers, lists and tuples are admitted by the array-like annotation of every conversion function
+                   lambda c: lints.arraylike(c, 'ARRAY-LIKE', UC, floor=4, extra_converters=('get_in_units', 'set_in_units'))])
